@@ -231,7 +231,10 @@ func decodeBytecodeV2(bc *Bytecode, r *bytes.Buffer) error {
 				return err
 			}
 
-			sz := obj.(ugo.Int)
+			sz, ok := obj.(ugo.Int)
+			if !ok {
+				return errors.New("invalid field #0 size type:" + obj.TypeName())
+			}
 			if sz <= 0 {
 				continue
 			}
@@ -252,21 +255,33 @@ func decodeBytecodeV2(bc *Bytecode, r *bytes.Buffer) error {
 				return err
 			}
 
-			bc.Main = f.(*ugo.CompiledFunction)
+			main, ok := f.(*ugo.CompiledFunction)
+			if !ok {
+				return errors.New("invalid field #1 type:" + f.TypeName())
+			}
+			bc.Main = main
 		case 2:
 			obj, err := DecodeObject(r)
 			if err != nil {
 				return err
 			}
 
-			bc.Constants = obj.(ugo.Array)
+			constants, ok := obj.(ugo.Array)
+			if !ok {
+				return errors.New("invalid field #2 type:" + obj.TypeName())
+			}
+			bc.Constants = constants
 		case 3:
 			num, err := DecodeObject(r)
 			if err != nil {
 				return err
 			}
 
-			bc.NumModules = int(num.(ugo.Int))
+			n, ok := num.(ugo.Int)
+			if !ok {
+				return errors.New("invalid field #3 type:" + num.TypeName())
+			}
+			bc.NumModules = int(n)
 		default:
 			return errors.New("unknown field:" + strconv.Itoa(int(field)))
 		}
@@ -1016,7 +1031,11 @@ func (o *CompiledFunction) UnmarshalBinary(data []byte) error {
 			if err != nil {
 				return err
 			}
-			o.Instructions = obj.(ugo.Bytes)
+			insts, ok := obj.(ugo.Bytes)
+			if !ok {
+				return errors.New("invalid instructions type:" + obj.TypeName())
+			}
+			o.Instructions = insts
 		case 3:
 			o.Variadic = true
 		case 4:
